@@ -261,9 +261,14 @@ def audit(ctx):
                 out_groups.append((s, vset(body, flow.forward({out_local}, through_calls=ADAPT))))
             if in_op is not None and in_op.get("p"):
                 in_groups.append((s, vset(body, fln.backward({in_op["p"]["l"]}, through_calls=ADAPT))))
+        j4_pairs = []
+        released_out = {}
+        in_just = {}
+        out_moved = []
         for s, kind, in_op, out_local in info:
             n_root_writes += 1
             sk = site_key(s, ordinals)
+            s.sk = sk
             loc = body.loc(s.bi, s.si if s.si != "term" else None)
             rev = TABLE["reviewed"].get(sk)
             if kind == "raw-drop":
@@ -362,6 +367,7 @@ def audit(ctx):
                     for s2, og in out_groups:
                         if s2 is not s and og & (grp or set()):
                             just = "J4 root-to-root move from %s.%s %s" % (s2.root[0], s2.root[1], s2.op)
+                            j4_pairs.append((s2, s))
                             break
                 if just is None and kind == "in+out" and s.op == "replace":
                     pass
@@ -369,6 +375,7 @@ def audit(ctx):
                     problems.append("inserted value has no paired retain / is not heap-free / is not moved from another root")
                 else:
                     notes.append(just)
+                    in_just[id(s)] = just
             # ---------------- OUT obligation
             if kind in ("out", "in+out"):
                 og = None
@@ -429,6 +436,7 @@ def audit(ctx):
                             missing.append("%s (path %s)" % (comp or "value", path_desc(body, [s.bi] + bad)))
                     if not missing:
                         just = "J3 release of %s on every non-error path" % ("+".join(c or "the removed value" for c in comps))
+                        released_out[id(s)] = True
                     else:
                         # J4 move into an IN site / into another root
                         moved = None
@@ -437,6 +445,7 @@ def audit(ctx):
                                 moved = s2
                         if moved is not None and comps == [None]:
                             just = "J4 root-to-root move into %s.%s %s" % (moved.root[0], moved.root[1], moved.op)
+                            out_moved.append((s, moved))
                         else:
                             problems.append("removed value not released: missing %s" % ", ".join(missing))
                 if just and just != "x":
@@ -455,6 +464,17 @@ def audit(ctx):
                     ctx.violated(R, sk, "; ".join(problems), loc, {"notes": notes})
             else:
                 ctx.ok(R, sk, "; ".join(notes), loc)
+        # exclusivity: a value that MOVES into another root (J4: the receiving site has no retain of its own) must not also be released
+        for s_out, s_in in j4_pairs:
+            if released_out.get(id(s_out)):
+                ctx.violated(R, getattr(s_out, "sk", "?") + "|released-and-moved",
+                             "the value removed here is released AND moves into root %s.%s without a retain there: its count ends one short "
+                             "(premature free when the receiving root is torn down)" % (s_in.root[0], s_in.root[1]), body.loc(s_out.bi))
+        for s_out, s_in in out_moved:
+            if (in_just.get(id(s_in)) or "").startswith("J2"):
+                ctx.violated(R, getattr(s_out, "sk", "?") + "|moved-and-retained",
+                             "the value removed here is NOT released but the root it moves into (%s.%s) retains it again: its count ends one too high (leak)"
+                             % (s_in.root[0], s_in.root[1]), body.loc(s_out.bi))
     ctx.floor(R, "root mutation sites", n_root_writes, 40)
     # stale table entries
     seen = {o["site"] for o in ctx.obs if o["rule"] == R}
